@@ -1,14 +1,38 @@
 """Generators for argument structures (Model/Deps.v `arg`), their realisation as real jug objects,
-and encoders from Python values to Gallina `val` literals.  Used by C03, C09, C15, C16."""
+an independent plain-Python reference evaluation, the syntactic "tasks underneath" set, and encoders
+from Python values to Gallina `val` literals.  Used by C16 (and available to C03, C09, C15).
+
+An argument is first generated as a SPEC (nested tuples, printable with repr() and readable back with
+`read_spec`), then
+    World.realise(spec)   -> the real jug object (Tasklet, block_access_slice, CustomHash, ...)
+    World.lit(spec)       -> the Gallina `arg` literal
+    World.reference(spec) -> what value() must give, computed in plain Python over the chosen results,
+                             with the set of results read and an "outside the model" flag
+    World.occ(spec)       -> hashes of the tasks occurring underneath (outside NoHash / opaque objects)
+
+Spec forms:
+    ('val', v)  ('task', i)  ('list', [s..])  ('tuple', [s..])  ('dict', [(k, s)..])
+    ('getitem', base, idx)                    base[idx]                      -> AGetitem
+    ('iteratetask', base, n, i)               iteratetask(base, n)[i]        -> AGetitem base (AVal i)
+    ('fun', base, 'wrap')                     Tasklet(base, wrap)            -> AFun base FWrap
+    ('fun', base, ('getcheck', i, n))         Tasklet(base, partial(_get_check, i=i, n=n))
+    ('return_tuple', base, n, i)              return_tuple(n)(f)()[i], f() = base   -> AFun base (FGetCheck i n)
+    ('mapseq', k)  ('mapslice', k, [sl..])    the k-th mapped sequence m, m[sl1][sl2]...; sl = (start, stop, step)
+    ('mapelem', k, [sl..], p)                 m[sl1]..[p] for an int p: a tasklet on one block
+    ('custom', s)  ('nohash_val', v)  ('nohash_task', i)  ('opaque', [i..])  ('identity', s)
+"""
+from functools import partial
+
+from . import jugrun            # puts the repository under test on sys.path
 import jug
 import jug.mapreduce
 import jug.utils
 import jug.unsafe
+import jug.hash
 from jug import Task, Tasklet, value
-from jug.task import iteratetask, return_tuple, TaskGenerator
+from jug.task import iteratetask, return_tuple, TaskGenerator, _get_check
 
 from .core import zlit, natlit, listlit, optlit
-from . import jugrun
 
 
 class Interner:
@@ -23,13 +47,53 @@ class Interner:
 
 
 # ---------------------------------------------------------------- task functions
+RESULTS = {}       # i -> what base task i returns (set by the World that is current)
+CALLS = []         # (function name, keys in the store when the function was entered)
+NSRC = 6
+
+
 def src(i):
-    """base task: its value is chosen by the generator (stored directly)"""
-    return None
+    """base task (old form): its value is chosen by the generator"""
+    return RESULTS.get(i)
+
+
+def _mk_src(i):
+    def f():
+        CALLS.append(('src%d' % i, None))
+        return RESULTS[i]
+    f.__name__ = f.__qualname__ = 'src%d' % i
+    return f
+
+
+SRC_FUNS = [_mk_src(i) for i in range(NSRC)]
+for _f in SRC_FUNS:
+    globals()[_f.__name__] = _f
+del _f
+
+
+def canon(o):
+    """values with Task objects / sets made comparable and picklable"""
+    if isinstance(o, Task):
+        h = o.hash()
+        return ('T', h.decode('ascii') if isinstance(h, bytes) else h)
+    if type(o) == list:
+        return [canon(x) for x in o]
+    if type(o) == tuple:
+        return tuple(canon(x) for x in o)
+    if type(o) == dict:
+        return {k: canon(v) for k, v in o.items()}
+    if type(o) in (set, frozenset):
+        return ('S', sorted((canon(x) for x in o), key=repr))
+    return o
 
 
 def consumer(*a, **k):
-    return ('consumed', a, sorted(k.items()))
+    try:
+        keys = sorted(Task.store.list())
+    except Exception:
+        keys = None
+    CALLS.append(('consumer', keys))
+    return ('consumed', canon(a), sorted((kk, canon(v)) for kk, v in k.items()))
 
 
 def wrap(x):
@@ -42,6 +106,10 @@ def ident_fn(x):
 
 def pair(x):
     return (x, x)
+
+
+def custom_digest(o):
+    return jug.hash.hash_one(('depsgen-custom', o))
 
 
 # ---------------------------------------------------------------- Python value -> val literal
@@ -65,6 +133,8 @@ def enc_val(o, tids, atoms):
     if type(o) == int:
         return '(VInt %s)' % zlit(o)
     if type(o) == slice:
+        if not all(v is None or type(v) == int for v in (o.start, o.stop, o.step)):
+            raise ValueError('cannot encode slice %r' % (o,))
         return '(VSlice %s)' % sl_lit(o)
     if type(o) == list:
         return '(VList %s)' % listlit([enc_val(x, tids, atoms) for x in o])
@@ -78,11 +148,18 @@ def enc_val(o, tids, atoms):
     raise ValueError('cannot encode value %r' % (o,))
 
 
+def range_lit(r):
+    return '{| r_start := %s; r_stop := %s; r_step := %s |}' % (zlit(r[0]), zlit(r[1]), zlit(r[2]))
+
+
 # ---------------------------------------------------------------- random plain values (results of base tasks)
+ATOMS = [0, 1, 2, 7, -3, 'a', 'b', None, 1.5, True]
+
+
 def gen_result(rng, depth=2):
     r = rng.random()
     if depth <= 0 or r < 0.25:
-        return rng.choice([0, 1, 2, 7, -3, 'a', 'b', None, 1.5, True])
+        return rng.choice(ATOMS)
     if r < 0.6:
         return [gen_result(rng, depth - 1) for _ in range(rng.randint(0, 4))]
     if r < 0.8:
@@ -91,189 +168,510 @@ def gen_result(rng, depth=2):
     return {k: gen_result(rng, depth - 1) for k in keys}
 
 
-class World:
-    """A set of real base tasks with chosen results (some stored, some not), mapped sequences,
-    and argument specs built over them."""
+def gen_container(rng, depth=3):
+    """a result worth indexing into"""
+    r = rng.random()
+    if r < 0.5:
+        return [gen_result(rng, depth - 1) for _ in range(rng.randint(1, 4))]
+    if r < 0.7:
+        return tuple(gen_result(rng, depth - 1) for _ in range(rng.randint(1, 3)))
+    keys = rng.sample(['a', 'b', 'c', 0, 1], rng.randint(1, 4))
+    return {k: gen_result(rng, depth - 1) for k in keys}
 
-    def __init__(self, rng, nbase=4, nmaps=1, stored_prob=0.8):
+
+def gen_indexlike(rng):
+    """a result worth using as an index"""
+    r = rng.random()
+    if r < 0.55:
+        return rng.choice([0, 1, -1, 2, -2])
+    if r < 0.85:
+        return rng.choice(['a', 'b', 'c'])
+    return slice(rng.choice([None, 0, 1, -2]), rng.choice([None, 2, -1]), rng.choice([None, 1, 2, -1]))
+
+
+def read_spec(text):
+    """inverse of repr() on specs / world descriptions (written by this module into replay files)"""
+    return eval(text, {'__builtins__': {}}, {'slice': slice, 'True': True, 'False': False, 'None': None})
+
+
+class Missing(Exception):
+    """reference evaluation: a result that is needed is not stored"""
+
+
+class World:
+    """A set of real base tasks with chosen results (some stored, some not), mapped sequences with
+    per-block stored flags, and argument specs built over them.
+
+    desc (optional) rebuilds a recorded world:
+        {'results': [..], 'stored': [bool..], 'maps': [{'xs': [..], 'bs': int, 'stored': [bool per block]}..]}"""
+    Missing = Missing
+
+    def __init__(self, rng, nbase=4, nmaps=1, stored_prob=0.8, desc=None, store=None, dump=True):
         self.rng = rng
-        self.store = jugrun.fresh()
+        self.store = jugrun.fresh(store)
         self.tids = Interner()
         self.atoms = Interner()
+        if desc is None:
+            nbase = min(nbase, NSRC)
+            results = []
+            for i in range(nbase):
+                r = rng.random()
+                if i == 0 or r < 0.25:
+                    results.append(gen_container(rng, 3))
+                elif i == 2 or r < 0.45:
+                    results.append(gen_indexlike(rng))
+                else:
+                    results.append(gen_result(rng, 3))
+            maps = []
+            for k in range(nmaps):
+                n = rng.randint(0, 9)
+                bs = rng.choice([2, 3, 4])
+                nb = (n + bs - 1) // bs
+                allst = rng.random() < stored_prob
+                maps.append({'xs': [10 * k + j for j in range(n)], 'bs': bs,
+                             'stored': [allst or rng.random() < stored_prob * 0.7 for _ in range(nb)]})
+            desc = {'results': results, 'stored': [rng.random() < stored_prob for _ in range(nbase)], 'maps': maps}
+        self.desc = desc
+        RESULTS.clear()
+        RESULTS.update(enumerate(desc['results']))
+        del CALLS[:]
         self.base = []         # (Task, result, stored?)
-        for i in range(nbase):
-            t = Task(src, i)
-            res = gen_result(rng, 3)
-            stored = rng.random() < stored_prob
-            if stored:
+        for i, res in enumerate(desc['results']):
+            t = Task(SRC_FUNS[i])
+            stored = bool(desc['stored'][i])
+            if stored and dump:
                 self.store.dump(res, t.hash())
             self.base.append((t, res, stored))
             self.tids(t.hash())
         self.reads = set()
-        self.maps = []         # (block_access, inputs, bs, [block tasks], stored?)
-        for k in range(nmaps):
-            n = rng.randint(0, 7)
-            bs = rng.choice([2, 3, 4])
-            xs = [10 * k + j for j in range(n)]
+        self.out_of_model = False
+        self.maps = []         # (block_access, inputs, bs, [block tasks], [stored? per block])
+        for md in desc['maps']:
+            xs, bs = list(md['xs']), md['bs']
             m = jug.mapreduce.map(pair, xs, map_step=bs)
-            stored = rng.random() < stored_prob
-            for b in m.blocks:
+            blocks = list(m.blocks)
+            stored = [bool(x) for x in md['stored']]
+            assert len(stored) == len(blocks)
+            for b, s in zip(blocks, stored):
                 self.tids(b.hash())
-                if stored:
+                if s and dump:
                     self.store.dump([pair(x) for x in b.args[1]], b.hash())
-            self.maps.append((m, xs, bs, list(m.blocks), stored))
+            self.maps.append((m, xs, bs, blocks, stored))
+        self._results = {}
+        self._stored = {}
+        for t, res, s in self.base:
+            self._results[t.hash()] = res
+            self._stored[t.hash()] = s
+        for m, xs, bs, blocks, stored in self.maps:
+            for b, s in zip(blocks, stored):
+                self._results[b.hash()] = [pair(x) for x in b.args[1]]
+                self._stored[b.hash()] = s
+
+    def describe(self):
+        return repr(self.desc)
+
+    def all_tasks(self):
+        return [t for t, _, _ in self.base] + [b for m in self.maps for b in m[3]]
+
+    def unload_all(self):
+        for t in self.all_tasks():
+            t.unload()
+
+    def is_stored(self, h):
+        return self._stored[h]
 
     # ---- the store as the model sees it
     def st_literal(self):
         """association list tid -> val of the stored results"""
         items = []
-        for t, res, stored in self.base:
-            if stored:
-                items.append('(%d%%positive, %s)' % (self.tids(t.hash()), enc_val(res, self.tids, self.atoms)))
-        for m, xs, bs, blocks, stored in self.maps:
-            if stored:
-                for b in blocks:
-                    items.append('(%d%%positive, %s)' % (self.tids(b.hash()), enc_val([pair(x) for x in b.args[1]], self.tids, self.atoms)))
+        for t in self.all_tasks():
+            h = t.hash()
+            if self._stored[h]:
+                items.append('(%d%%positive, %s)' % (self.tids(h), enc_val(self._results[h], self.tids, self.atoms)))
         return listlit(items)
 
     # ---- independent reference evaluation: plain Python over the chosen results
-    class Missing(Exception):
-        pass
-
     def result_of(self, t):
         """the result chosen for task t (base or block), recording the read; raises Missing when not stored"""
         h = t.hash()
         self.reads.add(h)
-        for bt, res, stored in self.base:
-            if bt.hash() == h:
-                if not stored:
-                    raise World.Missing()
-                return res
-        for m, xs, bs, blocks, stored in self.maps:
-            for b in blocks:
-                if b.hash() == h:
-                    if not stored:
-                        raise World.Missing()
-                    return [pair(x) for x in b.args[1]]
-        raise KeyError(h)
+        if h not in self._results:
+            raise KeyError(h)
+        if not self._stored[h]:
+            raise Missing()
+        return self._results[h]
 
-    # ---- argument specs -> (python object, arg literal, reference thunk)
-    def gen_arg(self, depth=3):
-        rng = self.rng
-        r = rng.random()
-        if depth <= 0 or r < 0.12:
-            v = gen_result(rng, 1)
-            return v, '(AVal %s)' % enc_val(v, self.tids, self.atoms), (lambda: v)
-        if r < 0.30:
-            return self.gen_task()
-        if r < 0.40:
-            xs = [self.gen_arg(depth - 1) for _ in range(rng.randint(0, 3))]
-            return [o for o, _, _ in xs], '(AList %s)' % listlit([l for _, l, _ in xs]), (lambda: [e() for _, _, e in xs])
-        if r < 0.47:
-            xs = [self.gen_arg(depth - 1) for _ in range(rng.randint(0, 3))]
-            return tuple(o for o, _, _ in xs), '(ATuple %s)' % listlit([l for _, l, _ in xs]), (lambda: tuple(e() for _, _, e in xs))
-        if r < 0.55:
-            keys = rng.sample(['a', 'b', 'c', 0, 1], rng.randint(0, 3))
-            kvs = [(k, self.gen_arg(depth - 1)) for k in keys]
-            return ({k: o for k, (o, _, _) in kvs},
-                    '(ADict %s)' % listlit(['(%s, %s)' % (key_lit(k, self.atoms), l) for k, (_, l, _) in kvs]),
-                    (lambda: {k: e() for k, (_, _, e) in kvs}))
-        if r < 0.75:
-            return self.gen_tasklet(depth)
-        if r < 0.83 and self.maps:
-            return self.gen_mapped()
-        if r < 0.88:
-            o, l, e = self.gen_arg(depth - 1)
-            return jug.utils.CustomHash(o, lambda _o: b'custom-digest'), '(ACustom %s)' % l, e
-        if r < 0.92:
-            if rng.random() < 0.5:
-                t, _, _ = self.gen_task()
-                return jug.unsafe.NoHash(t), '(ANoHashTask %d%%positive)' % self.tids(t.hash()), (lambda: t)
-            v = gen_result(rng, 1)
-            return jug.unsafe.NoHash(v), '(ANoHashVal %s)' % enc_val(v, self.tids, self.atoms), (lambda: v)
-        if r < 0.96:
-            ts = [self.gen_task()[0] for _ in range(rng.randint(1, 2))]
-            s = frozenset(ts)
-            return (s, '(AOpaque %s %s)' % (listlit(['%d%%positive' % self.tids(t.hash()) for t in s]), enc_val(s, self.tids, self.atoms)),
-                    (lambda: s))
-        t, l, e = self.gen_task()
-        return jug.utils.identity(t), l, e          # identity(task) is the task itself
+    def _index(self, o, i):
+        # Python semantics the model does not have: str/bytes are indexable, True/False index like 1/0
+        if isinstance(o, (str, bytes)) or isinstance(i, bool):
+            self.out_of_model = True
+        return o[i]
 
-    def gen_task(self):
-        t, res, stored = self.rng.choice(self.base)
-        return t, '(ATask %d%%positive)' % self.tids(t.hash()), (lambda: self.result_of(t))
+    def _positions(self, k, slices):
+        m, xs, bs, blocks, stored = self.maps[k]
+        pos = list(range(len(xs)))
+        for sl in slices:
+            pos = pos[slice(*sl)]
+        return pos
 
-    def gen_index(self, depth):
-        rng = self.rng
-        r = rng.random()
-        if r < 0.55:
-            i = rng.choice([0, 1, -1, 2, 5, -4])
-            return i, '(AVal %s)' % enc_val(i, self.tids, self.atoms), (lambda: i)
-        if r < 0.70:
-            k = rng.choice(['a', 'b', 'c'])
-            return k, '(AVal %s)' % enc_val(k, self.tids, self.atoms), (lambda: k)
-        if r < 0.82:
-            sl = slice(rng.choice([None, 0, 1, -2]), rng.choice([None, 2, 5, -1]), rng.choice([None, 1, 2, -1]))
-            return sl, '(AVal %s)' % enc_val(sl, self.tids, self.atoms), (lambda: sl)
-        # a task-valued index (or a tasklet-valued one)
-        if rng.random() < 0.6 or depth <= 0:
-            return self.gen_task()
-        return self.gen_tasklet(depth - 1)
+    def _range(self, k, slices):
+        """(start, stop, step) a block_access_slice must carry after these slices (CPython's own arithmetic)"""
+        m, xs, bs, blocks, stored = self.maps[k]
+        r = range(*slice(*slices[0]).indices(len(xs)))
+        for sl in slices[1:]:
+            r = r[slice(*sl)]
+        return (r.start, r.stop, r.step)
 
-    def gen_tasklet(self, depth):
-        rng = self.rng
-        if depth > 0 and rng.random() < 0.35:
-            base, bl, be = self.gen_tasklet(depth - 1)
-        else:
-            base, bl, be = self.gen_task()
-        r = rng.random()
-        if r < 0.75:
-            i, il, ie = self.gen_index(depth - 1)
-            return base[i], '(AGetitem %s %s)' % (bl, il), (lambda: be()[ie()])
-        if r < 0.87:
-            return Tasklet(base, wrap), '(AFun %s FWrap)' % bl, (lambda: (be(),))
-        from functools import partial
-        from jug.task import _get_check
-        i, n = rng.randint(0, 2), rng.randint(1, 3)
+    def _element(self, k, p):
+        m, xs, bs, blocks, stored = self.maps[k]
+        return self.result_of(blocks[p // bs])[p % bs]
 
-        def chk():
-            rr = be()
-            if len(rr) != n:
-                raise ValueError
-            return rr[i]
-        return Tasklet(base, partial(_get_check, i=i, n=n)), '(AFun %s (FGetCheck %s %s))' % (bl, natlit(i), natlit(n)), chk
-
-    def gen_mapped(self):
-        rng = self.rng
-        m, xs, bs, blocks, stored = rng.choice(self.maps)
-        bl = listlit(['%d%%positive' % self.tids(b.hash()) for b in blocks])
-        head = '%s %s %s' % (bl, natlit(bs), zlit(len(xs)))
-        r = rng.random()
-
-        def whole():
+    def ref(self, s):
+        tag = s[0]
+        if tag == 'val' or tag == 'nohash_val':
+            return s[1]
+        if tag == 'task':
+            return self.result_of(self.base[s[1]][0])
+        if tag == 'list':
+            return [self.ref(x) for x in s[1]]
+        if tag == 'tuple':
+            return tuple([self.ref(x) for x in s[1]])
+        if tag == 'dict':
+            return {k: self.ref(x) for k, x in s[1]}
+        if tag == 'getitem':
+            o = self.ref(s[1])
+            i = self.ref(s[2])
+            return self._index(o, i)
+        if tag == 'iteratetask':
+            o = self.ref(s[1])
+            return self._index(o, s[3])
+        if tag == 'fun' or tag == 'return_tuple':
+            o = self.ref(s[1])
+            f = s[2] if tag == 'fun' else ('getcheck', s[3], s[2])
+            if f == 'wrap':
+                return (o,)
+            _, i, n = f
+            if isinstance(o, (str, bytes, dict)):
+                self.out_of_model = True         # len()/[] work on them; the model knows sequences only
+            if len(o) != n:
+                raise ValueError('wrong length')
+            return o[i]
+        if tag == 'mapseq':
             out = []
-            for b in blocks:
+            for b in self.maps[s[1]][3]:
                 out.extend(self.result_of(b))
             return out
+        if tag == 'mapslice':
+            return [self._element(s[1], p) for p in self._positions(s[1], s[2])]
+        if tag == 'mapelem':
+            pos = self._positions(s[1], s[2])
+            return self._element(s[1], pos[s[3]])
+        if tag == 'custom' or tag == 'identity':
+            return self.ref(s[1])
+        if tag == 'nohash_task':
+            return self.base[s[1]][0]
+        if tag == 'opaque':
+            return frozenset(self.base[i][0] for i in s[1])
+        raise ValueError('bad spec %r' % (s,))
 
-        def element(p):
-            return self.result_of(blocks[p // bs])[p % bs]
-        n = len(xs)
-        if r < 0.15 and n > 0:
-            p = rng.randrange(n)
-            return (m[p], '(AGetitem (ATask %d%%positive) (AVal (VInt %s)))' % (self.tids(blocks[p // bs].hash()), zlit(p % bs)),
-                    (lambda: element(p)))
+    def reference(self, s):
+        """-> (outcome, reads, out_of_model); outcome = ('ok', v) | ('missing',) | ('raised', exception name)"""
+        self.reads = set()
+        self.out_of_model = False
+        try:
+            out = ('ok', self.ref(s))
+        except Missing:
+            out = ('missing',)
+        except Exception as e:
+            out = ('raised', type(e).__name__)
+        return out, set(self.reads), self.out_of_model
+
+    # ---- the tasks underneath, read off the syntax
+    def occ(self, s):
+        tag = s[0]
+        if tag in ('val', 'nohash_val', 'nohash_task', 'opaque'):
+            return set()
+        if tag == 'task':
+            return {self.base[s[1]][0].hash()}
+        if tag in ('list', 'tuple'):
+            return set().union(*[self.occ(x) for x in s[1]]) if s[1] else set()
+        if tag == 'dict':
+            return set().union(*[self.occ(x) for _, x in s[1]]) if s[1] else set()
+        if tag == 'getitem':
+            return self.occ(s[1]) | self.occ(s[2])
+        if tag in ('iteratetask', 'fun', 'return_tuple', 'custom', 'identity'):
+            return self.occ(s[1])
+        if tag in ('mapseq', 'mapslice'):
+            return {b.hash() for b in self.maps[s[1]][3]}
+        if tag == 'mapelem':
+            m, xs, bs, blocks, stored = self.maps[s[1]]
+            p = self._positions(s[1], s[2])[s[3]]
+            return {blocks[p // bs].hash()}
+        raise ValueError('bad spec %r' % (s,))
+
+    def can_load_expected(self, s):
+        """can_load() of the derived object: the tasks at the bottom of the BASE chain are stored
+        (Tasklet.can_load delegates to its base and does not consult the operation); None = no can_load"""
+        tag = s[0]
+        if tag == 'task':
+            return self._stored[self.base[s[1]][0].hash()]
+        if tag in ('getitem', 'iteratetask', 'fun', 'return_tuple'):
+            return self.can_load_expected(s[1])
+        if tag == 'identity':
+            return self.can_load_expected(s[1])
+        if tag in ('mapseq', 'mapslice', 'mapelem'):
+            return all(self._stored[h] for h in self.occ(s))
+        return None
+
+    # ---- spec -> real jug object
+    def realise(self, s):
+        tag = s[0]
+        if tag == 'val':
+            return s[1]
+        if tag == 'task':
+            return self.base[s[1]][0]
+        if tag == 'list':
+            return [self.realise(x) for x in s[1]]
+        if tag == 'tuple':
+            return tuple(self.realise(x) for x in s[1])
+        if tag == 'dict':
+            return {k: self.realise(x) for k, x in s[1]}
+        if tag == 'getitem':
+            return self.realise(s[1])[self.realise(s[2])]
+        if tag == 'iteratetask':
+            return iteratetask(self.realise(s[1]), s[2])[s[3]]
+        if tag == 'fun':
+            base = self.realise(s[1])
+            if s[2] == 'wrap':
+                return Tasklet(base, wrap)
+            _, i, n = s[2]
+            return Tasklet(base, partial(_get_check, i=i, n=n))
+        if tag == 'return_tuple':
+            base = self.realise(s[1])
+
+            def producer():
+                return base
+            return return_tuple(s[2])(producer)()[s[3]]
+        if tag == 'mapseq':
+            return self.maps[s[1]][0]
+        if tag == 'mapslice':
+            o = self.maps[s[1]][0]
+            for sl in s[2]:
+                o = o[slice(*sl)]
+            return o
+        if tag == 'mapelem':
+            o = self.maps[s[1]][0]
+            for sl in s[2]:
+                o = o[slice(*sl)]
+            return o[s[3]]
+        if tag == 'custom':
+            return jug.utils.CustomHash(self.realise(s[1]), custom_digest)
+        if tag == 'nohash_val':
+            return jug.unsafe.NoHash(s[1])
+        if tag == 'nohash_task':
+            return jug.unsafe.NoHash(self.base[s[1]][0])
+        if tag == 'opaque':
+            return frozenset(self.base[i][0] for i in s[1])
+        if tag == 'identity':
+            return jug.utils.identity(self.realise(s[1]))
+        raise ValueError('bad spec %r' % (s,))
+
+    # ---- spec -> Gallina arg literal
+    def tid_lit(self, t):
+        return '%d%%positive' % self.tids(t.hash())
+
+    def _map_head(self, k):
+        m, xs, bs, blocks, stored = self.maps[k]
+        return '%s %s %s' % (listlit([self.tid_lit(b) for b in blocks]), natlit(bs), zlit(len(xs)))
+
+    def lit(self, s):
+        tag = s[0]
+        if tag == 'val':
+            return '(AVal %s)' % enc_val(s[1], self.tids, self.atoms)
+        if tag == 'task':
+            return '(ATask %s)' % self.tid_lit(self.base[s[1]][0])
+        if tag == 'list':
+            return '(AList %s)' % listlit([self.lit(x) for x in s[1]])
+        if tag == 'tuple':
+            return '(ATuple %s)' % listlit([self.lit(x) for x in s[1]])
+        if tag == 'dict':
+            return '(ADict %s)' % listlit(['(%s, %s)' % (key_lit(k, self.atoms), self.lit(x)) for k, x in s[1]])
+        if tag == 'getitem':
+            return '(AGetitem %s %s)' % (self.lit(s[1]), self.lit(s[2]))
+        if tag == 'iteratetask':
+            return '(AGetitem %s (AVal (VInt %s)))' % (self.lit(s[1]), zlit(s[3]))
+        if tag == 'fun':
+            if s[2] == 'wrap':
+                return '(AFun %s FWrap)' % self.lit(s[1])
+            _, i, n = s[2]
+            return '(AFun %s (FGetCheck %s %s))' % (self.lit(s[1]), natlit(i), natlit(n))
+        if tag == 'return_tuple':
+            return '(AFun %s (FGetCheck %s %s))' % (self.lit(s[1]), natlit(s[3]), natlit(s[2]))
+        if tag == 'mapseq':
+            return '(AMapSeq %s)' % self._map_head(s[1])
+        if tag == 'mapslice':
+            return '(AMapSlice %s %s)' % (self._map_head(s[1]), range_lit(self._range(s[1], s[2])))
+        if tag == 'mapelem':
+            m, xs, bs, blocks, stored = self.maps[s[1]]
+            p = self._positions(s[1], s[2])[s[3]]
+            return '(AGetitem (ATask %s) (AVal (VInt %s)))' % (self.tid_lit(blocks[p // bs]), zlit(p % bs))
+        if tag == 'custom':
+            return '(ACustom %s)' % self.lit(s[1])
+        if tag == 'nohash_val':
+            return '(ANoHashVal %s)' % enc_val(s[1], self.tids, self.atoms)
+        if tag == 'nohash_task':
+            return '(ANoHashTask %s)' % self.tid_lit(self.base[s[1]][0])
+        if tag == 'opaque':
+            ts = frozenset(self.base[i][0] for i in s[1])
+            return '(AOpaque %s %s)' % (listlit([self.tid_lit(t) for t in ts]), enc_val(ts, self.tids, self.atoms))
+        if tag == 'identity':
+            return self.lit(s[1])          # identity(task or tasklet) is that very object
+        raise ValueError('bad spec %r' % (s,))
+
+    # ---- random specs
+    def gen_spec(self, depth=3):
+        rng = self.rng
+        r = rng.random()
+        if depth <= 0 or r < 0.10:
+            return ('val', gen_result(rng, 1))
+        if r < 0.24:
+            return self.gen_task_spec()
+        if r < 0.32:
+            return ('list', [self.gen_spec(depth - 1) for _ in range(rng.randint(0, 3))])
+        if r < 0.38:
+            return ('tuple', [self.gen_spec(depth - 1) for _ in range(rng.randint(0, 3))])
+        if r < 0.45:
+            keys = rng.sample(['a', 'b', 'c', 0, 1], rng.randint(0, 3))
+            return ('dict', [(k, self.gen_spec(depth - 1)) for k in keys])
+        if r < 0.70:
+            return self.gen_tasklet_spec(depth)
+        if r < 0.83 and self.maps:
+            return self.gen_mapped_spec()
+        if r < 0.88:
+            inner = self.gen_spec(depth - 1) if rng.random() < 0.5 else \
+                rng.choice([('list', [self.gen_task_spec(), self.gen_tasklet_spec(depth - 1)]),
+                            ('dict', [('a', self.gen_task_spec())]),
+                            ('tuple', [self.gen_task_spec(), ('val', 3)])])
+            return ('custom', inner)
+        if r < 0.92:
+            if rng.random() < 0.5:
+                return ('nohash_task', rng.randrange(len(self.base)))
+            return ('nohash_val', gen_result(rng, 1))
+        if r < 0.95:
+            return ('opaque', sorted(rng.sample(range(len(self.base)), rng.randint(1, min(2, len(self.base))))))
+        return ('identity', self.gen_task_spec() if rng.random() < 0.5 else self.gen_tasklet_spec(depth - 1))
+
+    def gen_task_spec(self):
+        return ('task', self.rng.randrange(len(self.base)))
+
+    def gen_index_spec(self, depth):
+        rng = self.rng
+        r = rng.random()
         if r < 0.40:
-            return m, '(AMapSeq %s)' % head, whole
-        rb = [None] + list(range(-n - 1, n + 2))
-        sl = slice(rng.choice(rb), rng.choice(rb), rng.choice([None, 1, 2, -1, -2]))
-        obj = m[sl]
-        positions = list(range(n))[sl]
-        if r < 0.60 and len(obj) > 0:
-            k = len(obj)
-            rb2 = [None] + list(range(-k - 1, k + 2))
-            sl2 = slice(rng.choice(rb2), rng.choice(rb2), rng.choice([None, 1, 2, -1]))
-            obj = obj[sl2]
-            positions = positions[sl2]
-        rlit = '{| r_start := %s; r_stop := %s; r_step := %s |}' % (zlit(obj.start), zlit(obj.stop), zlit(obj.stride))
-        return obj, '(AMapSlice %s %s)' % (head, rlit), (lambda: [element(p) for p in positions])
+            return ('val', rng.choice([0, 1, -1, 2, 5, -4, -2]))
+        if r < 0.52:
+            return ('val', rng.choice(['a', 'b', 'c']))
+        if r < 0.64:
+            return ('val', slice(rng.choice([None, 0, 1, -2]), rng.choice([None, 2, 5, -1]), rng.choice([None, 1, 2, -1])))
+        if r < 0.80 or depth <= 0:
+            return self.gen_task_spec()                       # a task-valued index
+        if r < 0.92:
+            return self.gen_tasklet_spec(depth - 1)           # a tasklet-valued index
+        if r < 0.96:
+            return ('custom', self.gen_task_spec())
+        return self.gen_spec(1)                               # anything: a container of tasks, NoHash ...
+
+    def gen_tasklet_spec(self, depth):
+        rng = self.rng
+        r0 = rng.random()
+        if depth > 0 and r0 < 0.45:
+            base = self.gen_tasklet_spec(depth - 1)
+        elif r0 < 0.53 and self.maps:
+            # Tasklet over a mapped sequence / slice / container: only the function forms exist for them
+            base = rng.choice([self.gen_mapped_spec(whole_only=True), ('list', [self.gen_task_spec(), ('val', 1)])])
+            return ('fun', base, 'wrap') if rng.random() < 0.7 else ('fun', base, ('getcheck', rng.randint(0, 2), rng.randint(1, 3)))
+        else:
+            base = self.gen_task_spec()
+        r = rng.random()
+        if r < 0.66:
+            return ('getitem', base, self.gen_index_spec(depth - 1))
+        if r < 0.74:
+            return ('fun', base, 'wrap')
+        if r < 0.82:
+            n = rng.randint(1, 4)
+            return ('iteratetask', base, n, rng.randrange(n))
+        if r < 0.92:
+            n = rng.randint(1, 3)
+            return ('return_tuple', base, n, rng.randrange(n))
+        return ('fun', base, ('getcheck', rng.randint(0, 2), rng.randint(1, 3)))
+
+    def gen_slice(self, n):
+        rng = self.rng
+        rb = [None] * 3 + list(range(-n - 1, n + 2))
+        return (rng.choice(rb), rng.choice(rb), rng.choice([None, None, 1, 2, 3, -1, -2]))
+
+    def gen_mapped_spec(self, whole_only=False):
+        rng = self.rng
+        k = rng.randrange(len(self.maps))
+        n = len(self.maps[k][1])
+        r = rng.random()
+        if r < 0.25:
+            return ('mapseq', k)
+        slices = []
+        length = n
+        for _ in range(rng.choice([1, 1, 2, 2, 3])):
+            sl = self.gen_slice(length)
+            slices.append(sl)
+            length = len(range(length)[slice(*sl)])
+        if not whole_only and r < 0.45:
+            # an int index, possibly negative, into the sequence or into a slice of it
+            if rng.random() < 0.5:
+                slices = []
+                length = n
+            if length > 0:
+                return ('mapelem', k, slices, rng.randrange(-length, length))
+            return ('mapseq', k)
+        return ('mapslice', k, slices)
+
+    # ---- old interface: (python object, arg literal, reference thunk)
+    def gen_arg(self, depth=3):
+        s = self.gen_spec(depth)
+        return self.realise(s), self.lit(s), (lambda: self.ref(s))
+
+    def gen_task(self):
+        s = self.gen_task_spec()
+        return self.realise(s), self.lit(s), (lambda: self.ref(s))
+
+
+# ---------------------------------------------------------------- programs for real `jug execute` / `jug invalidate`
+LAST = {}
+
+
+def consumer_task(o, how='pos'):
+    """a consumer of the derived object o, receiving it positionally, by keyword, or inside a container"""
+    if how == 'kw':
+        return Task(consumer, k=o)
+    if how == 'nested':
+        return Task(consumer, 1, [o, {'x': (o,)}])
+    return Task(consumer, o)
+
+
+def build_program(desc, spec, how='pos'):
+    """Called from a generated jugfile: defines the base tasks and mapped sequences of the world `desc`
+    (nothing is stored by this), the derived object `spec` and its consumer."""
+    w = World(None, desc=desc, store=Task.store, dump=False)
+    o = w.realise(spec)
+    c = consumer_task(o, how)
+    LAST.clear()
+    LAST.update(world=w, obj=o, consumer=c)
+    return c
+
+
+JUGFILE = '''import harness.depsgen as G
+G.build_program(%s, %s, %r)
+'''
+
+
+def write_jugfile(path, desc, spec, how='pos'):
+    with open(path, 'w') as fh:
+        fh.write(JUGFILE % (repr(desc), repr(spec), how))
